@@ -437,7 +437,7 @@ m("num-incrby-int32", ["C01"], "NUM", "handleIncrBy|ParseInt", "INCRBY parses th
 m("rs-late-state-copy", ["C07"], "RS", "copies-state-synchronously", "FSM.Snapshot no longer copies the state itself",
   ('internal/raft/fsm.go', 'data:                  fsm.options.GetState(),', 'data:                  nil,'))
 
-m("u1-nopass-before-enabled", ["C11"], "U1", "update-only-if-enabled", "password-less fast path moved before the Enabled check",
+m("u1-nopass-before-enabled", ["C11", "C06"], "U1", "update-only-if-enabled", "password-less fast path moved before the Enabled check",
   (ACL, '''	// If user is not enabled, return error
 	if !user.Enabled {
 		return fmt.Errorf("user %s is disabled", user.Username)
@@ -505,6 +505,50 @@ m("q-dedupe-skips-check", ["C06"], "Q", "every-element-tested", "write-key loop 
 				continue
 			}
 			if !slices.ContainsFunc(connection.User.IncludedWriteKeys'''))
+
+# --- added with batch 3 of the independent seeds ---
+m("x3-sampler-no-zero-guard", ["C04", "C05"], "X3", "evictKeysWithExpiredTTL|delete:", "background sampler deletes without testing that a deadline is set",
+  (K, 'if !ok || entry.ExpireAt == (time.Time{}) || !entry.ExpireAt.Before(server.clock.Now()) {', 'if !ok || !entry.ExpireAt.Before(server.clock.Now()) {'))
+m("x3-sampler-unlock-between-test-and-delete", ["C05", "C04"], "X3", "evictKeysWithExpiredTTL|delete:", "background sampler releases the store lock between the expiry test and the deletion",
+  (K, """		// Delete the expired key
+		deletedCount += 1
+""", """		// Delete the expired key
+		server.storeLock.Unlock()
+		server.storeLock.Lock()
+		deletedCount += 1
+"""))
+m("d3-truncate-no-select-header", ["C02", "C20"], "D3", "truncate-keeps-database-record", "log Truncate writes its SELECT header to nowhere and keeps the recorded database",
+  ('internal/aof/log/store.go', """	db := strconv.Itoa(store.currentDatabase)
+	_, err := store.rw.Write([]byte(""", """	db := strconv.Itoa(store.currentDatabase)
+	_, err := io.Discard.Write([]byte("""))
+m("d6-temp-manifest-no-trunc", ["C10"], "D6", "f:written-file-starts-empty:manifest-tmp", "temporary manifest opened without O_TRUNC",
+  ('internal/snapshot/snapshot.go', 'os.Create(path.Join(dirname, "manifest.bin.tmp"))', 'os.OpenFile(path.Join(dirname, "manifest.bin.tmp"), os.O_WRONLY|os.O_CREATE, 0644)'))
+m("d4-second-local-handler-call", ["C07"], "D4", "b:local-exec-guard#2", "dispatcher gains a second, unguarded local handler invocation before the cluster branch",
+  (D, """	// Handle other commands that need to be synced across the cluster
+	if server.raft.IsRaftLeader() {""", """	if len(cmd) == 1 {
+		return handler(server.getHandlerFuncParams(ctx, cmd, conn))
+	}
+	// Handle other commands that need to be synced across the cluster
+	if server.raft.IsRaftLeader() {"""))
+m("a2-guard-hoisted-before-loop", ["C08"], "A2", "adjustMemoryUsage|evict:", "under-limit guard moved from adjustMemoryUsage to before the caller's loop over databases",
+  (K, """	for db, _ := range server.store {
+		ctx := context.WithValue(ctx, "Database", db)
+		if err := server.adjustMemoryUsage(ctx); err != nil {""", """	if uint64(server.memUsed) < server.config.MaxMemory {
+		return touchCounter, nil
+	}
+	for db, _ := range server.store {
+		ctx := context.WithValue(ctx, "Database", db)
+		if err := server.adjustMemoryUsage(ctx); err != nil {"""),
+  (K, """	if uint64(server.memUsed) < server.config.MaxMemory {
+		return nil
+	}
+	// Force a garbage collection first before we start evicting keys.
+	runtime.GC()
+	if uint64(server.memUsed) < server.config.MaxMemory {
+		return nil
+	}
+""", """	runtime.GC()
+"""))
 
 out = os.path.join(os.path.dirname(os.path.dirname(os.path.abspath(__file__))), 'mutants', 'mutants.json')
 os.makedirs(os.path.dirname(out), exist_ok=True)
